@@ -237,10 +237,32 @@ FORBIDDEN = re.compile(r"\b(sorry|admit|native_decide|bv_decide|implemented_by|u
                        re.M)
 
 
-def grep_forbidden():
-    """Return list of (file, token) for forbidden constructs in the Lean library."""
+def import_closure(module):
+    """Files of the ArgoVerif library that `module` (e.g. ArgoVerif.Props.C07) imports, transitively (itself included)."""
+    seen, todo = {}, [module]
+    while todo:
+        m = todo.pop()
+        if m in seen or not m.startswith("ArgoVerif"):
+            continue
+        f = os.path.join(LEAN, *m.split(".")) + ".lean"
+        if not os.path.exists(f):
+            continue
+        seen[m] = f
+        for line in strip_lean_comments(open(f).read()).split("\n"):
+            mm = re.match(r"\s*(?:public\s+)?import\s+(\S+)", line)
+            if mm:
+                todo.append(mm.group(1))
+    return sorted(seen.values())
+
+
+def grep_forbidden(prop=None):
+    """Return list of (file, token) for forbidden constructs in the Lean library — with `prop`, in the files the
+    property's theorems depend on (import closure of Props.<prop>); a construct in a file that no theorem of this
+    property imports cannot weaken them."""
     hits = []
-    for f in glob.glob(os.path.join(LEAN, "ArgoVerif", "**", "*.lean"), recursive=True):
+    files = import_closure("ArgoVerif.Props." + prop) if prop else \
+        glob.glob(os.path.join(LEAN, "ArgoVerif", "**", "*.lean"), recursive=True)
+    for f in files:
         txt = strip_lean_comments(open(f).read())
         # string literals may legitimately contain words; drop them
         txt = re.sub(r'"(\\.|[^"\\])*"', '""', txt)
